@@ -27,7 +27,11 @@ import (
 
 const up = "u1"
 
-func cluster() *proxyv1alpha1.UpstreamCluster {
+func cluster() *proxyv1alpha1.UpstreamCluster { return clusterWith(proxyv1alpha1.GlobalCountLimit) }
+
+// clusterWith: the count schema's strategy is an operator-editable field; the counts the server holds for it must be
+// reclaimed whatever it says at the moment an instance dies
+func clusterWith(cStrategy proxyv1alpha1.LimitStrategy) *proxyv1alpha1.UpstreamCluster {
 	mif := func(n int32) *proxyv1alpha1.MaxRequestsInflightFlowControlSchema {
 		return &proxyv1alpha1.MaxRequestsInflightFlowControlSchema{Max: n}
 	}
@@ -35,7 +39,7 @@ func cluster() *proxyv1alpha1.UpstreamCluster {
 		Servers: []proxyv1alpha1.UpstreamClusterServer{{Endpoint: "https://127.0.0.1:1"}},
 		FlowControl: proxyv1alpha1.FlowControl{Schemas: []proxyv1alpha1.FlowControlSchema{
 			{Name: "a", Strategy: proxyv1alpha1.GlobalAllocateLimit, FlowControlSchemaConfiguration: proxyv1alpha1.FlowControlSchemaConfiguration{MaxRequestsInflight: mif(1), GlobalMaxRequestsInflight: mif(40)}},
-			{Name: "c", Strategy: proxyv1alpha1.GlobalCountLimit, FlowControlSchemaConfiguration: proxyv1alpha1.FlowControlSchemaConfiguration{MaxRequestsInflight: mif(1), GlobalMaxRequestsInflight: mif(6)}},
+			{Name: "c", Strategy: cStrategy, FlowControlSchemaConfiguration: proxyv1alpha1.FlowControlSchemaConfiguration{MaxRequestsInflight: mif(1), GlobalMaxRequestsInflight: mif(6)}},
 		}}}}
 }
 
@@ -205,6 +209,69 @@ func (s *sys) checkGone(i int) error {
 }
 
 func spec(k int) xstate.Spec { return specOn(k, "local") }
+
+// specStray: the k=2 histories plus a stray heartbeat that carries no instance parameter (the endpoint does not refuse
+// it: the empty identity is registered) and later falls silent like any other client - which must not cost a live
+// instance anything
+func specStray() xstate.Spec {
+	sp := specOn(2, "local")
+	sp.Name = "reclaim-k2-stray-heartbeat"
+	events, apply := sp.Events, sp.Apply
+	sp.Events = func(si interface{}) []string { return append(events(si), "stray-heartbeat", "stray-silent") }
+	sp.Apply = func(si interface{}, e string) error {
+		s := si.(*sys)
+		switch e {
+		case "stray-heartbeat":
+			vtime.Advance(200 * time.Millisecond)
+			_ = s.rig.L.Heartbeat("")
+			return nil
+		case "stray-silent":
+			vtime.Advance(200 * time.Millisecond)
+			s.rig.H.SetHeartbeat("", vtime.Now().Add(-time.Hour))
+			return nil
+		}
+		return apply(si, e)
+	}
+	return sp
+}
+
+// specStrategyEdit: the k=2 histories plus an operator switching the count schema's strategy away from globalCount
+// and back while instances hold counted in-flight (no acquire happens while it is switched away)
+func specStrategyEdit() xstate.Spec {
+	sp := specOn(2, "local")
+	sp.Name = "reclaim-k2-strategy-edit"
+	events, apply := sp.Events, sp.Apply
+	away := map[*sys]bool{}
+	sp.Events = func(si interface{}) []string {
+		var out []string
+		for _, e := range events(si) {
+			if away[si.(*sys)] && strings.HasPrefix(e, "acquire") {
+				continue
+			}
+			out = append(out, e)
+		}
+		return append(out, "strategy-switch")
+	}
+	sp.Apply = func(si interface{}, e string) error {
+		s := si.(*sys)
+		if e == "strategy-switch" {
+			vtime.Advance(200 * time.Millisecond)
+			away[s] = !away[s]
+			st := proxyv1alpha1.GlobalCountLimit
+			if away[s] {
+				st = proxyv1alpha1.GlobalAllocateLimit
+			}
+			if err := s.rig.ApplyCluster(clusterWith(st)); err != nil {
+				return fmt.Errorf("strategy-switch-failed: %v", err)
+			}
+			return nil
+		}
+		return apply(si, e)
+	}
+	canon := sp.Canon
+	sp.Canon = func(si interface{}) string { return fmt.Sprint(canon(si), away[si.(*sys)]) }
+	return sp
+}
 
 // specIDs: the k=2 histories with the second instance carrying an identity of the given shape
 func specIDs(shape string) xstate.Spec {
@@ -477,7 +544,7 @@ func main() {
 		"an instance that sends a report or an acquire also sends heartbeats (gateways heartbeat every second)",
 		"engine A: ratelimter.go, clientcache.go, store/local/*.go and store/flowcontrol/maxinflight.go instrumented at sync-operation granularity; a request of the dying instance that races the cleanup is followed by the next periodic passes before judging",
 	}
-	specs := []xstate.Spec{spec(2), spec(3), specOn(2, "k8s-writeback"), specIDs("url-prefix"), specIDs("long")}
+	specs := []xstate.Spec{spec(2), spec(3), specOn(2, "k8s-writeback"), specIDs("url-prefix"), specIDs("long"), specStray(), specStrategyEdit()}
 	if c.ReplayFile() != "" {
 		xstate.ReplayIfAsked(c, specs)
 		xa.ReplayIfAsked(c, harnesses(c, 0))
@@ -488,6 +555,8 @@ func main() {
 	tasks = append(tasks, xstate.Tasks(c, specOn(2, "k8s-writeback"), c.Pick(5, 7), 16)...)
 	tasks = append(tasks, xstate.Tasks(c, specIDs("url-prefix"), c.Pick(5, 6), 15)...)
 	tasks = append(tasks, xstate.Tasks(c, specIDs("long"), c.Pick(5, 6), 15)...)
+	tasks = append(tasks, xstate.Tasks(c, specStray(), c.Pick(5, 6), 17)...)
+	tasks = append(tasks, xstate.Tasks(c, specStrategyEdit(), c.Pick(5, 6), 16)...)
 	bounds := []int{0, 1, 2}
 	if c.Thorough() {
 		bounds = []int{0, 1, 2, 3}
